@@ -3,12 +3,16 @@
 
   c19_buffers.py export            memoryview() of every *Array class (dense lengths 0..4, read-only, masked,
                                    strided component arrays): nbytes, itemsize, format, ndim, shape, strides, readonly
+  c19_buffers.py export-check      the same views against an INDEPENDENT expectation derived from the class name (element
+                                   kind x size x components: format, itemsize, ndim, shape, strides, nbytes), their
+                                   CONTENTS against the packed element values, writes through the view; lengths 0,1,2,5
   c19_buffers.py export-ro <cls>   memoryview() of a read-only array (own process: may abort)
-  c19_buffers.py from safe         every *ArrayFromBuffer function x array.array typecodes x lengths, only the
-                                   combinations where the copy cannot overrun the new allocation
-  c19_buffers.py from one <func> <typecode> <n> [<rows> <cols>]
-                                   a single (possibly overrunning) call, for subprocess / valgrind use"""
-import sys, json, array
+  c19_buffers.py from safe         every *ArrayFromBuffer function x source kinds (contiguous array.array of every
+                                   typecode, 2-D casts, NON-CONTIGUOUS memoryview slices [::2] [1::2] [::-1] ..., imath's
+                                   own strided component arrays, bytes); called in process only when neither the write
+                                   nor a flat read of `nbytes` can leave the buffers, described (not called) otherwise
+  c19_buffers.py from one <json>   a single (possibly overrunning / over-reading) call, for subprocess / valgrind use"""
+import sys, json, array, struct
 
 
 def mvinfo(mv):
@@ -71,42 +75,223 @@ def export():
     json.dump(out, sys.stdout)
 
 
+# ----------------------------------------------------------------------------------------------
+# INDEPENDENT expectation of an exported view, derived from the CLASS NAME only (element kind x width), never from
+# PyImathFixedArrayTraits.h: (kind, component size, components per element)
+SCALAR_KINDS = {"Int": ("signed", 4), "Float": ("float", 4), "Double": ("float", 8), "UnsignedChar": ("unsigned", 1),
+                "SignedChar": ("signed", 1), "Short": ("signed", 2), "UnsignedShort": ("unsigned", 2),
+                "UnsignedInt": ("unsigned", 4), "Int64": ("signed", 8), "Bool": ("unsigned", 1)}
+SUFFIX_KINDS = {"s": ("signed", 2), "i": ("signed", 4), "i64": ("signed", 8), "f": ("float", 4), "d": ("float", 8),
+                "c": ("unsigned", 1), "h": ("float", 2)}
+FORMAT_KIND = {"e": "float", "f": "float", "d": "float", "b": "signed", "h": "signed", "i": "signed", "l": "signed",
+               "q": "signed", "B": "unsigned", "H": "unsigned", "I": "unsigned", "L": "unsigned", "Q": "unsigned", "?": "unsigned"}
+
+
+def expected_layout(cname):
+    """class name -> (kind, size, width) or None"""
+    import re
+    base = cname[:-5] if cname.endswith("Array") else cname
+    if base in SCALAR_KINDS:
+        return SCALAR_KINDS[base] + (1,)
+    m = re.match(r"^(V|C)([234])(i64|s|i|f|d|c|h)$", base)
+    if m:
+        return SUFFIX_KINDS[m.group(3)] + (int(m.group(2)),)
+    return None
+
+
+def export_check():
+    """every array class that exports a buffer x lengths 0,1,2,5 (+ its component arrays): the view's description is
+    compared with the independent expectation, its CONTENTS with the packed element values written through the
+    Python API, and a write through the view must land in the array"""
+    import imath
+    out = {"classes": {}, "bad": [], "cases": 0, "unknown": []}
+
+    def check(label, mv, kind, size, shape, strides, values):
+        out["cases"] += 1
+        exp = {"itemsize": size, "ndim": len(shape), "shape": list(shape), "strides": list(strides),
+               "nbytes": size * (1 if not shape else __import__("functools").reduce(lambda a, b: a * b, shape, 1))}
+        got = {"itemsize": mv.itemsize, "ndim": mv.ndim, "shape": list(mv.shape), "strides": list(mv.strides), "nbytes": mv.nbytes}
+        probs = [k for k in exp if exp[k] != got[k] and not (k == "strides" and mv.nbytes == 0)]
+        f = mv.format.lstrip("@<")
+        try:
+            if FORMAT_KIND.get(f) != kind or struct.calcsize(f) != size:
+                probs.append("format")
+        except struct.error:
+            probs.append("format")
+        if not probs:
+            packed = struct.pack("<%d%s" % (len(values), {("float", 4): "f", ("float", 8): "d", ("signed", 1): "b", ("signed", 2): "h",
+                                                          ("signed", 4): "i", ("signed", 8): "q", ("unsigned", 1): "B",
+                                                          ("unsigned", 2): "H", ("unsigned", 4): "I"}[(kind, size)]),
+                                 *[float(v) if kind == "float" else v for v in values])
+            if mv.tobytes() != packed:
+                probs.append("contents")
+        if probs:
+            out["bad"].append({"what": label, "problems": probs, "expected": exp, "expected_kind": [kind, size],
+                               "got": dict(got, format=mv.format)})
+        return not probs
+
+    for n in sorted(dir(imath)):
+        c = getattr(imath, n)
+        if not (n.endswith("Array") and isinstance(c, type) and hasattr(c, "__getitem__") and hasattr(c, "__len__")):
+            continue
+        try:
+            memoryview(c(1))
+        except TypeError:
+            continue
+        except Exception as e:
+            out["bad"].append({"what": n, "problems": ["memoryview raises"], "error": str(e)[:80]})
+            continue
+        lay = expected_layout(n)
+        if lay is None:
+            out["unknown"].append(n)
+            continue
+        kind, size, w = lay
+        rec = out["classes"][n] = {"layout": lay, "lengths": [], "components": []}
+        for L in (0, 1, 2, 5):
+            a = c(L)
+            vals = []
+            for i in range(L):
+                comps = [7 * i + k + 1 for k in range(w)]
+                if w == 1:
+                    a[i] = float(comps[0]) if kind == "float" else comps[0]
+                else:
+                    e = c(1)[0]
+                    for k in range(w):
+                        e[k] = comps[k]
+                    a[i] = e
+                vals += comps
+            mv = memoryview(a)
+            shape = (L,) if w == 1 else (L, w)
+            strides = (size,) if w == 1 else (w * size, size)
+            ok = check("%s(%d)" % (n, L), mv, kind, size, shape, strides, vals)
+            rec["lengths"].append(L)
+            # a write through the view lands in the array
+            if ok and L and not mv.readonly:
+                try:
+                    if w == 1:
+                        mv[L - 1] = 99.0 if kind == "float" else 99
+                        back = a[L - 1]
+                    else:
+                        mv[L - 1, w - 1] = 99.0 if kind == "float" else 99
+                        back = a[L - 1][w - 1]
+                    out["cases"] += 1
+                    if back != 99:
+                        out["bad"].append({"what": "%s(%d)" % (n, L), "problems": ["write through the view does not land in the array"],
+                                           "got": repr(back)})
+                except Exception as e:
+                    out["bad"].append({"what": "%s(%d)" % (n, L), "problems": ["write through the view raises"], "error": str(e)[:80]})
+            # component arrays: strided 1-D views of the same storage
+            if w > 1 and L in (1, 5):
+                names = {"V": "xyzw", "C": "rgba"}[n[0]][:w]
+                for k, cn in enumerate(names):
+                    try:
+                        comp = getattr(a, cn)
+                        mvc = memoryview(comp)
+                    except TypeError:
+                        continue      # the component array class exports no buffer / has no Python class
+                    a2 = [7 * i + k + 1 for i in range(L)]
+                    if L and not mv.readonly and k == w - 1:
+                        a2[L - 1] = 99
+                    check("%s(%d).%s" % (n, L, cn), mvc, kind, size, (L,), (w * size,), a2)
+                    if cn not in rec["components"]:
+                        rec["components"].append(cn)
+    json.dump(out, sys.stdout)
+
+
 TYPECODES = "bBhHiIlqfd"
+COMPONENTS = {"x": 0, "y": 1, "z": 2, "w": 3, "r": 0, "g": 1, "b": 2, "a": 3}
 
 
-def make_src(tc, n, rows=None, cols=None):
+def base_array(tc, n):
     vals = [k + 1 for k in range(n)]
-    a = array.array(tc, [float(v) for v in vals] if tc in "fd" else vals)
-    if rows is not None:
-        return memoryview(a).cast("B").cast(tc, shape=[rows, cols]), a
-    return a, a
+    return array.array(tc, [float(v) for v in vals] if tc in "fd" else vals)
 
 
-def call_from(func, tc, n, rows=None, cols=None):
+def make_src(kind, tc, n, rows=None, cols=None, extra=None):
+    """-> (source object, keep-alive, geometry) for one source kind.
+
+    geometry = what the model needs and Python cannot read off a memoryview: the exporter's whole memory block
+    (`mem`, bytes) and the offset of `view.buf` inside it (`off`).  Source kinds:
+      dense            array.array(tc, 1..n)
+      2d               the same cast to shape [rows, cols]                       (C-contiguous)
+      slice            memoryview(array.array(tc, 1..n))[extra]                  extra = (start, stop, step)
+      2dslice          memoryview(2-D cast)[extra]                               rows strided
+      comp             memoryview(getattr(imath.<extra[0]>(n), extra[1]))        imath's own strided export
+      bytes            memoryview(bytes(n))                                      format 'B', read-only"""
+    if kind == "bytes":
+        b = bytes(range(1, n + 1))
+        return memoryview(b), b, {"mem": b, "off": 0}
+    if kind == "comp":
+        import imath
+        cname, comp = extra
+        v = getattr(imath, cname)(n)
+        w = len(getattr(imath, cname)(1)[0])
+        for i in range(n):
+            e = getattr(imath, cname)(1)[0]
+            for k in range(w):
+                e[k] = 10 * (i + 1) + k
+            v[i] = e
+        c = getattr(v, comp)
+        mvc = memoryview(c)
+        # the exporter's block = the vector array's storage, rebuilt from the element values (not every vector
+        # array class exports a buffer itself)
+        vals = [10 * (i + 1) + k for i in range(n) for k in range(w)]
+        mem = struct.pack("<%d%s" % (n * w, mvc.format), *[float(x) if mvc.format in "fd" else x for x in vals])
+        return mvc, (v, c), {"mem": mem, "off": COMPONENTS[comp] * mvc.itemsize if n else 0}
+    a = base_array(tc, n)
+    mem = a.tobytes()
+    if kind == "dense":
+        return a, a, {"mem": mem, "off": 0}
+    if kind == "2d":
+        return memoryview(a).cast("B").cast(tc, shape=[rows, cols]), a, {"mem": mem, "off": 0}
+    sl = slice(*extra)
+    if kind == "slice":
+        mv = memoryview(a)[sl]
+        start = sl.indices(n)[0]
+        return mv, a, {"mem": mem, "off": max(0, min(start, n)) * a.itemsize if len(mv) else 0}
+    if kind == "2dslice":
+        m2 = memoryview(a).cast("B").cast(tc, shape=[rows, cols])
+        mv = m2[sl]
+        start = sl.indices(rows)[0]
+        return mv, a, {"mem": mem, "off": max(0, min(start, rows)) * cols * a.itemsize if mv.nbytes else 0}
+    raise ValueError(kind)
+
+
+def call_from(func, kind, tc, n, rows=None, cols=None, extra=None, call=True):
     import imath
     f = getattr(imath, func)
-    src, keep = make_src(tc, n, rows, cols)
+    src, keep, geo = make_src(kind, tc, n, rows, cols, extra)
     mv = memoryview(src)
-    info = {"func": func, "typecode": tc, "n": n, "rows": rows, "cols": cols, "src_itemsize": mv.itemsize,
-            "src_format": mv.format, "src_shape0": mv.shape[0] if mv.ndim else 0, "src_nbytes": mv.nbytes}
+    info = {"func": func, "kind": kind, "typecode": tc, "n": n, "rows": rows, "cols": cols, "extra": extra,
+            "src_itemsize": mv.itemsize, "src_format": mv.format, "src_shape": list(mv.shape), "src_strides": list(mv.strides),
+            "src_shape0": mv.shape[0] if mv.ndim else 0, "src_nbytes": mv.nbytes, "src_off": geo["off"],
+            "src_mem": geo["mem"].hex(), "src_bytes": mv.tobytes().hex(), "contiguous": mv.c_contiguous}
+    # does a flat read of `nbytes` from `buf` stay inside the exporter's block?  (otherwise the call is made out of process)
+    info["flat_read_inside"] = geo["off"] + mv.nbytes <= len(geo["mem"])
+    if not call:
+        return info
     try:
         r = f(src)
         info["result_len"] = len(r)
         info["result_class"] = type(r).__name__
-        # the copied elements, read back as raw bytes through the result's own buffer when it has one
-        try:
-            info["result_bytes"] = list(bytes(memoryview(r)))[:mv.nbytes]
-            info["src_bytes"] = list(bytes(mv))
-        except Exception:
-            pass
     except BaseException as e:
         info["error"] = type(e).__name__ + ": " + str(e)[:100]
+        return info
+    try:
+        info["result_bytes"] = memoryview(r).tobytes().hex()
+    except TypeError:
+        # the result class exports no buffer (V4dArray): its storage, rebuilt from the element values
+        fmtc = ELEM[func[:-len("ArrayFromBuffer")]][0]
+        vals = [c for i in range(len(r)) for c in ([r[i]] if isinstance(r[i], (int, float)) else [r[i][k] for k in range(len(r[i]))])]
+        info["result_bytes"] = struct.pack("<%d%s" % (len(vals), fmtc), *vals).hex()
+        info["result_bytes_from"] = "elements"
     return info
 
 
 ELEM = {"Int": ("i", 4, 1), "Float": ("f", 4, 1), "Double": ("d", 8, 1),
         "V2i": ("i", 4, 2), "V2f": ("f", 4, 2), "V2d": ("d", 8, 2), "V3i": ("i", 4, 3), "V3f": ("f", 4, 3),
         "V3d": ("d", 8, 3), "V4i": ("i", 4, 4), "V4f": ("f", 4, 4), "V4d": ("d", 8, 4)}
+SLICES = [(None, None, 2), (1, None, 2), (None, None, -1), (None, None, -2), (1, 4, 1), (None, None, 3), (5, None, 1)]
 
 
 def from_funcs():
@@ -114,8 +299,30 @@ def from_funcs():
     return [n for n in sorted(dir(imath)) if n.endswith("ArrayFromBuffer")]
 
 
+def component_exporters(fmt):
+    """(class, component) pairs whose component arrays export format `fmt` (introspection)"""
+    import imath
+    out = []
+    for cn in sorted(dir(imath)):
+        c = getattr(imath, cn)
+        if not (cn.endswith("Array") and isinstance(c, type)):
+            continue
+        for comp in COMPONENTS:
+            try:
+                if not hasattr(c, comp):
+                    continue
+                v = getattr(c(1), comp)
+                if memoryview(v).format == fmt and len(c(1)[0]) > COMPONENTS[comp]:
+                    out.append((cn, comp))
+            except Exception:
+                continue
+    return out
+
+
 def cases(func):
-    """(typecode, n, rows, cols, safe) — 1-D sources of every typecode, and 2-D sources with `width` columns"""
+    """(kind, typecode, n, rows, cols, extra, write_safe): contiguous 1-D sources of every typecode, 2-D sources with
+    `width` columns, NON-CONTIGUOUS views of both (every-other, reversed, offset), imath's own strided component
+    arrays, and a `bytes` object.  write_safe = the copy cannot overrun the new allocation."""
     base = func[:-len("ArrayFromBuffer")]
     fmt, atom, width = ELEM.get(base, ("?", 0, 0))
     sizeof_t = atom * width
@@ -123,16 +330,36 @@ def cases(func):
     for tc in TYPECODES:
         isz = array.array(tc).itemsize
         for n in range(0, 4):
-            out.append((tc, n, None, None, n * isz <= n * sizeof_t))
+            out.append(("dense", tc, n, None, None, None, n * isz <= n * sizeof_t))
         if width > 1:
             for rows in range(0, 3):
-                out.append((tc, rows * width, rows, width, rows * width * isz <= rows * sizeof_t))
+                out.append(("2d", tc, rows * width, rows, width, None, rows * width * isz <= rows * sizeof_t))
+    # non-contiguous views of the array's own element type (and one foreign type)
+    for tc in sorted({fmt, "d" if fmt != "d" else "f"}):
+        isz = array.array(tc).itemsize
+        for n in (6, 5, 1):
+            for sl in SLICES:
+                k = len(range(n)[slice(*sl)])
+                out.append(("slice", tc, n, None, None, sl, k * isz <= k * sizeof_t))
+        if width > 1:
+            for rows in (4, 3):
+                for sl in SLICES[:5]:
+                    k = len(range(rows)[slice(*sl)])
+                    out.append(("2dslice", tc, rows * width, rows, width, sl, k * width * isz <= k * sizeof_t))
+    if width == 1:
+        for (cn, comp) in component_exporters(fmt):
+            for n in (0, 1, 4):
+                out.append(("comp", fmt, n, None, None, (cn, comp), True))
+    for n in (0, 4, 8, 12):
+        out.append(("bytes", "B", n, None, None, None, n <= n * sizeof_t))
     return out
 
 
 def main():
     if sys.argv[1] == "export":
         export()
+    elif sys.argv[1] == "export-check":
+        export_check()
     elif sys.argv[1] == "export-ro":
         # memoryview of a READ-ONLY array; separate process: an exception escaping the C getbuffer slot aborts
         import imath
@@ -141,21 +368,37 @@ def main():
         a.makeReadOnly()
         json.dump(tr(lambda: mvinfo(memoryview(a))), sys.stdout)
     elif sys.argv[1] == "from" and sys.argv[2] == "safe":
+        # every case whose copy stays inside both buffers is called here; the others are only DESCRIBED (call=False)
+        # and executed one per process by the check (`from one`)
         res, unsafe = [], []
         for func in from_funcs():
-            for (tc, n, rows, cols, safe) in cases(func):
+            for (kind, tc, n, rows, cols, extra, wsafe) in cases(func):
                 if rows == 0 and cols:
                     continue      # cast() refuses zero-sized shapes
-                if safe:
-                    res.append(call_from(func, tc, n, rows, cols))
+                try:
+                    d = call_from(func, kind, tc, n, rows, cols, extra, call=False)
+                except Exception as e:
+                    res.append({"func": func, "kind": kind, "typecode": tc, "n": n, "harness_error": str(e)[:100]})
+                    continue
+                if wsafe and d["flat_read_inside"]:
+                    res.append(call_from(func, kind, tc, n, rows, cols, extra))
                 else:
-                    unsafe.append([func, tc, n, rows, cols])
+                    d["write_safe"] = wsafe
+                    unsafe.append(d)
         json.dump({"safe": res, "unsafe": unsafe, "funcs": from_funcs()}, sys.stdout)
+    elif sys.argv[1] == "from" and sys.argv[2] == "batch":
+        # several calls in one process (cases the model predicts to be REJECTED before any copy): JSON list on stdin
+        out = []
+        for spec in json.load(sys.stdin):
+            ex = spec.get("extra")
+            out.append(call_from(spec["func"], spec["kind"], spec["typecode"], spec["n"], spec.get("rows"), spec.get("cols"),
+                                 tuple(ex) if ex is not None else None))
+        json.dump(out, sys.stdout)
     elif sys.argv[1] == "from" and sys.argv[2] == "one":
-        a = sys.argv[3:]
-        rows = int(a[3]) if len(a) > 3 else None
-        cols = int(a[4]) if len(a) > 4 else None
-        json.dump(call_from(a[0], a[1], int(a[2]), rows, cols), sys.stdout)
+        spec = json.loads(sys.argv[3])
+        ex = spec.get("extra")
+        json.dump(call_from(spec["func"], spec["kind"], spec["typecode"], spec["n"], spec.get("rows"), spec.get("cols"),
+                            tuple(ex) if ex is not None else None), sys.stdout)
 
 
 if __name__ == "__main__":
